@@ -308,6 +308,43 @@ func verifC03Mutations(w *bufio.Writer, r *verifC03Rng, vb *verifC03Bundle, perS
 			n++
 		}
 	}
+	// straddling bursts: last j data bits, the (unchanged) head byte of the CRC item, first i value bits,
+	// j+8+i <= CRC width. CRC-16: every pattern; CRC-32: every (j,i) with random fillings.
+	if stride == 1 {
+		for k, e := range vb.extents {
+			wd := vb.widths[k]
+			nb := wd / 8
+			headBit := 8 * (e[1] - nb - 1) // first bit of the item head = end of the data bits
+			for j := 1; j+8+1 <= wd; j++ {
+				for i := 1; j+8+i <= wd; i++ {
+					free := j + i - 2 // first data bit and last value bit are set
+					reps := 1 << uint(free)
+					if wd == 32 {
+						reps = perStart
+					}
+					for rep := 0; rep < reps; rep++ {
+						fill := uint64(rep)
+						if wd == 32 {
+							fill = r.next()
+						}
+						pat := make([]bool, j+8+i)
+						pat[0], pat[j+8+i-1] = true, true
+						q := 0
+						for b := 1; b < j+8+i-1; b++ {
+							if b >= j && b < j+8 {
+								continue
+							}
+							pat[b] = fill>>uint(q)&1 == 1
+							q++
+						}
+						off, x := verifC03Burst(headBit-j, pat)
+						verifC03Mut(w, oh, orig, off, x)
+						n++
+					}
+				}
+			}
+		}
+	}
 	// byte windows: 2 resp. 4 arbitrary consecutive bytes
 	for o := 0; o < len(orig); o += stride {
 		nb := vb.widthAt(o) / 8
